@@ -73,16 +73,20 @@ Definition empty_answer : answer := mkans (mkts HNil HNil HNil HNil) (mkrp false
    kind 0: answers the case's answer; 1: answers an error; 2: answers the zero value *)
 Inductive rop := RReg (ty : string) (kind : int) | RDel (ty : string).
 
-Definition resolver_of (a : answer) (kind : int) : resolver :=
-  if Uint63.eqb kind 0%uint63 then (fun _ => Some a)
+(* the answering stub resolver answers only when it is handed the credential status the
+   caller passed to ValidateCredentialStatus (type and nonce), like the Go stub *)
+Definition resolver_of (exp : cred_status) (a : answer) (kind : int) : resolver :=
+  if Uint63.eqb kind 0%uint63 then
+    (fun cs => if String.eqb (cs_type cs) (cs_type exp) && (cs_nonce cs =? cs_nonce exp)
+               then Some a else None)
   else if Uint63.eqb kind 1%uint63 then (fun _ => None)
   else (fun _ => Some empty_answer).
 
-Fixpoint apply_rops (a : answer) (reg : registry) (ops : list rop) : registry :=
+Fixpoint apply_rops (exp : cred_status) (a : answer) (reg : registry) (ops : list rop) : registry :=
   match ops with
   | [] => reg
-  | RReg ty k :: r => apply_rops a (reg_register reg ty (resolver_of a k)) r
-  | RDel ty :: r => apply_rops a (reg_delete reg ty) r
+  | RReg ty k :: r => apply_rops exp a (reg_register reg ty (resolver_of exp a k)) r
+  | RDel ty :: r => apply_rops exp a (reg_delete reg ty) r
   end.
 
 (* what coerceCredentialStatus is given *)
@@ -191,7 +195,7 @@ Definition agree (c : scase) : bool :=
       let a := answer_of ra in
       let n := z_of_limbs nonce in
       let cs := mkcs ty n in
-      let reg := apply_rops a [] ops in
+      let reg := apply_rops cs a [] ops in
       let m_ts := match validate_tree_state P q (a_issuer a) with
                   | Ok true => 0%uint63 | Ok false => 1%uint63 | Err _ => 2%uint63
                   | _ => 3%uint63 end in
